@@ -41,6 +41,7 @@ func runC08(c *Ctx) {
 		c.Fail("FILTER-IN-WALK", "anchor", token.NoPos, "bufmodule/bufcas not found")
 		return
 	}
+	c08NodeFromObject(c, pkM)
 	// digest functions of bufmodule: those in digest.go whose name mentions Digest
 	var digestFns []*FuncRef
 	for _, fr := range p.FuncsOf(pkM) {
@@ -514,5 +515,87 @@ func ruleDepDigestsSorted(c *Ctx, rule string) {
 		c.Ob(rule, "getB5DigestForBucketAndDepDigests/dep-digests-sorted", fr.Decl.Pos(), ok, true, "the dependency digest strings (%d slice(s) derived from the parameter, i.e. in the caller's listing order) are sorted before strings.Join feeds the hash: %v", len(derived), ok)
 	} else {
 		c.Fail(rule, "getB5DigestForBucketAndDepDigests", token.NoPos, "not found")
+	}
+}
+
+// c08NodeFromObject (NODE-FROM-OBJECT): the digest is "the same for every storage backend" only if a file node is named
+// by the object's bucket-relative Path() - ExternalPath()/LocalPath() differ between a directory, an archive and the
+// cache - and "changes whenever any byte changes" only if its content digest is computed from the very object being
+// walked. For every walk that feeds file nodes into a digest (found as in FILTER-IN-WALK) the callback must: call
+// NewDigestForContent on its own parameter, pass that digest and parameter.Path() to NewFileNode, append the node on
+// the success path (no nil return that skips the append), and the walk must start at the bucket root ("").
+func c08NodeFromObject(c *Ctx, pkM *packages.Package) {
+	const rule = "NODE-FROM-OBJECT"
+	c.Rule(rule, "every walked object becomes one file node named by its bucket path with the digest of its own content", 4)
+	p := c.P
+	n := 0
+	for _, sf := range p.SSAFuncsOf([]*packages.Package{pkM}) {
+		for _, f := range allSSAFuncs(sf) {
+			for _, call := range callsIn(f) {
+				if !calleeIs(staticCalleeObj(call.Call), "private/pkg/storage", "WalkReadObjects") || len(call.Call.Args) < 4 {
+					continue
+				}
+				var cb *ssa.Function
+				switch x := call.Call.Args[3].(type) {
+				case *ssa.MakeClosure:
+					cb, _ = x.Fn.(*ssa.Function)
+				case *ssa.Function:
+					cb = x
+				}
+				if cb == nil || len(cb.Params) != 1 {
+					continue
+				}
+				var newNode, newDigest *ssa.Call
+				for _, cc := range callsIn(cb) {
+					fn := staticCalleeObj(cc.Call)
+					if fn == nil || fn.Pkg() == nil || !strings.HasSuffix(fn.Pkg().Path(), "/bufcas") {
+						continue
+					}
+					if v, ok := cc.Value.(*ssa.Call); ok {
+						switch fn.Name() {
+						case "NewFileNode":
+							newNode = v
+						case "NewDigestForContent":
+							newDigest = v
+						}
+					}
+				}
+				if newNode == nil {
+					continue
+				}
+				n++
+				inst := fmt.Sprintf("%s/walk#%d", ssaFuncName(f), n)
+				obj := cb.Params[0]
+				// (a) content digest of this object
+				okDigest := newDigest != nil && len(newDigest.Call.Args) >= 1 && stripConv(newDigest.Call.Args[0]) == ssa.Value(obj) &&
+					len(newNode.Call.Args) == 2 && dependsOnValue(newNode.Call.Args[1], newDigest)
+				c.Ob(rule, inst+"/content", newNode.Pos(), okDigest, true, "the node's digest is NewDigestForContent(<the walked object>): %v", okDigest)
+				// (b) named by Path()
+				okPath := false
+				if pc, ok := stripConv(newNode.Call.Args[0]).(*ssa.Call); ok && pc.Call.IsInvoke() && pc.Call.Value == ssa.Value(obj) && pc.Call.Method.Name() == "Path" {
+					okPath = true
+				}
+				c.Ob(rule, inst+"/path", newNode.Pos(), okPath, true, "the node is named by <the walked object>.Path(), the bucket-relative path (not an external or local path): %v", okPath)
+				// (c) every success return has appended the node
+				okAppend := true
+				nRet := 0
+				for _, r := range returnsOf(cb) {
+					if len(r.Results) != 1 || !isNilConst(r.Results[0]) {
+						continue
+					}
+					nRet++
+					if !instrDominates(newNode, r) {
+						okAppend = false
+					}
+				}
+				c.Ob(rule, inst+"/no-skip", cb.Pos(), okAppend && nRet > 0, true, "every nil return of the callback (%d) comes after the node was built: %v", nRet, okAppend)
+				// (d) whole bucket
+				okRoot := isConstString(call.Call.Args[2], "")
+				c.Ob(rule, inst+"/root", call.Pos(), okRoot, true, "the walk starts at the bucket root (prefix \"\"): %v", okRoot)
+			}
+		}
+	}
+	if n == 0 {
+		c.Fail(rule, "anchor", token.NoPos, "no digest walk found")
 	}
 }
